@@ -10,7 +10,18 @@ Local Open Scope string_scope.
    Terminal.flatten            = value
    astutils.Operator.flatten   = "( op a, b )"        (used by Nodes.Unary)
    Nodes.Binary.flatten        = "( l op r )"
-   Nodes.Operator.flatten      = "op(a, b, c)"                              *)
+   Nodes.Operator.flatten      =
+     "( \E y, z: body )"               operator \A or \E, operands (params, body):
+                                       the operands of params joined by ", "
+     "( LET a == e1 b == e2 IN body )"  operator LET, operands (defs, body): defs
+                                       is a Python list, each definition printed
+                                       as its operands joined by " == ", the
+                                       definitions joined by a blank
+     "op(a, b, c)"                      every other operator (ite, @)
+   The parser builds `\A`/`\E` nodes only as Opr op [Opr "params" vs; body] and
+   LET nodes only as Opr "LET" [Lst defs; body]; on an operator named \A, \E or
+   LET whose operands have another shape the Python code raises, the model
+   keeps the generic equation. *)
 Fixpoint join (sep : string) (l : list string) : string :=
   match l with
   | [] => ""
@@ -18,13 +29,53 @@ Fixpoint join (sep : string) (l : list string) : string :=
   | x :: r => x ++ sep ++ join sep r
   end.
 
+Definition is_quant_op (op : string) : bool :=
+  String.eqb op "\A" || String.eqb op "\E".
+Definition is_let_op (op : string) : bool := String.eqb op "LET".
+
 Fixpoint flatten_str (t : tree) : string :=
   match t with
   | Term _ v => v
   | Un op x => "( " ++ op ++ " " ++ flatten_str x ++ " )"
   | Bin _ op l r => "( " ++ flatten_str l ++ " " ++ op ++ " " ++ flatten_str r ++ " )"
-  | Opr op args => op ++ "(" ++ join ", " (map flatten_str args) ++ ")"
+  | Opr op args =>
+      let generic := op ++ "(" ++ join ", " (map flatten_str args) ++ ")" in
+      match args with
+      | [p; body] =>
+          match p with
+          | Opr _ vs =>
+              if is_quant_op op
+              then "( " ++ op ++ " " ++ join ", " (map flatten_str vs) ++ ": "
+                   ++ flatten_str body ++ " )"
+              else generic
+          | Lst ds =>
+              if is_let_op op
+              then "( LET "
+                   ++ join " "
+                        (map (fun d =>
+                                (* ' == '.join(x.flatten() for x in opdef.operands) *)
+                                match d with
+                                | Bin _ _ n e => flatten_str n ++ " == " ++ flatten_str e
+                                | Un _ x => flatten_str x
+                                | Opr _ xs => join " == " (map flatten_str xs)
+                                | _ => ""          (* no operands: Python raises *)
+                                end) ds)
+                   ++ " IN " ++ flatten_str body ++ " )"
+              else generic
+          | _ => generic
+          end
+      | _ => generic
+      end
   | Lst xs => "[" ++ join ", " (map flatten_str xs) ++ "]"   (* never printed by omega *)
+  end.
+
+(* the printed form of one definition of LET *)
+Definition def_str (d : tree) : string :=
+  match d with
+  | Bin _ _ n e => flatten_str n ++ " == " ++ flatten_str e
+  | Un _ x => flatten_str x
+  | Opr _ xs => join " == " (map flatten_str xs)
+  | _ => ""
   end.
 
 (* ---- token level ---- *)
@@ -36,6 +87,9 @@ Variable optok : string -> token.
 Definition LP := Tok "LPAREN" "(".
 Definition RP := Tok "RPAREN" ")".
 Definition CM := Tok "COMMA" ",".
+Definition CL := Tok "COLON" ":".
+Definition DF := Tok "DEF" "==".
+Definition INx := Tok "IN_EXPR" "IN".
 
 Definition is_neg (v : string) : bool :=
   match v with
@@ -58,19 +112,44 @@ Definition term_toks (k : tkind) (v : string) : list token :=
        Tok "DQUOTES" """"]
   end.
 
+(* x1 , x2 , ... , xn *)
+Definition sep_toks (f : tree -> list token) : list tree -> list token :=
+  fix go (l : list tree) : list token :=
+    match l with
+    | [] => []
+    | [x] => f x
+    | x :: r => f x ++ CM :: go r
+    end.
+(* name == body *)
+Definition def_toks (f : tree -> list token) (d : tree) : list token :=
+  match d with
+  | Bin _ _ n e => f n ++ DF :: f e
+  | _ => []
+  end.
+
 Fixpoint flatten (t : tree) : list token :=
   match t with
   | Term k v => term_toks k v
   | Un op x => LP :: optok op :: flatten x ++ [RP]
   | Bin _ op l r => LP :: flatten l ++ optok op :: flatten r ++ [RP]
   | Opr op args =>
-      optok op :: LP ::
-      (fix go (l : list tree) : list token :=
-         match l with
-         | [] => []
-         | [x] => flatten x
-         | x :: r => flatten x ++ CM :: go r
-         end) args ++ [RP]
+      let generic := optok op :: LP :: sep_toks flatten args ++ [RP] in
+      match args with
+      | [p; body] =>
+          match p with
+          | Opr _ vs =>
+              if is_quant_op op
+              then LP :: optok op :: sep_toks flatten vs ++ CL :: flatten body ++ [RP]
+              else generic
+          | Lst ds =>
+              if is_let_op op
+              then LP :: optok op :: flat_map (def_toks flatten) ds
+                   ++ INx :: flatten body ++ [RP]
+              else generic
+          | _ => generic
+          end
+      | _ => generic
+      end
   | Lst xs => []
   end.
 
